@@ -28,8 +28,22 @@ pub struct GCase {
 }
 
 pub fn gen(ctx: &mut Ctx) -> Option<GCase> {
-    let mode = ctx.choose(3);
+    let mode = ctx.choose(5);
     let mut params = vec![];
+    if mode == 4 {
+        // README "Lifetimes", first scenario: the result borrows from the reference itself ('o2o must outlive 'a + 'b)
+        params.push(P::Lt("'a"));
+        if ctx.flag() {
+            params.push(P::Lt("'b"));
+        }
+    }
+    if mode == 3 {
+        // the deriving type has its own parameters AND the counterpart has a lifetime of its own
+        if ctx.flag() {
+            params.push(P::Lt("'a"));
+        }
+        params.push(P::Ty { bound: ctx.flag(), default: false });
+    }
     if mode == 0 {
         // <= 3 parameters in an order Rust allows (lifetimes first; types and consts in any order)
         let nl = ctx.choose(3);
@@ -71,9 +85,9 @@ pub fn gen(ctx: &mut Ctx) -> Option<GCase> {
     }
     let has_ty = params.iter().any(|p| matches!(p, P::Ty { .. }));
     let own_where = has_ty && ctx.flag();
-    let where_instr = if has_ty { ctx.choose(3) } else { 0 };
-    let turbofish = ctx.flag();
-    let mut tags = vec![format!("mode={}", ["mirror", "concrete-args", "counterpart-lifetime"][mode]), format!("where_instr={}", where_instr), format!("turbofish={}", turbofish)];
+    let where_instr = if has_ty && mode != 3 { ctx.choose(3) } else { 0 };
+    let turbofish = mode != 4 && ctx.flag();
+    let mut tags = vec![format!("mode={}", ["mirror", "concrete-args", "counterpart-lifetime", "counterpart-lifetime+own-params", "borrow-from-reference"][mode]), format!("where_instr={}", where_instr), format!("turbofish={}", turbofish)];
     for p in &params {
         tags.push(match p {
             P::Lt(_) => "param=lifetime".to_string(),
@@ -148,7 +162,9 @@ impl GCase {
         match self.mode {
             0 => format!("{}{}<{}>", n, tf, self.args()),
             1 => format!("{}{}<i32>", n, tf),
-            _ => format!("{}{}<'x>", n, tf),
+            2 => format!("{}{}<'x>", n, tf),
+            4 => n.to_string(),
+            _ => format!("{}{}<'x, {}>", n, tf, self.args()),
         }
     }
     pub fn item_text(&self) -> String {
@@ -187,10 +203,31 @@ impl GCase {
                     let _ = writeln!(o, "struct S {{ x: i32, t: i32 }}");
                 }
             }
-            _ => {
+            2 => {
                 // README "Lifetimes", mirror scenario: the lifetime exists only in the counterpart's path
                 let _ = writeln!(o, "#[ref_into({})]\n#[ref_try_into({}, Er)]", self.cp_path(false), self.cp_path(true));
                 let _ = writeln!(o, "struct S {{ x: i32, #[into(~.as_str())] s: String }}");
+            }
+            4 => {
+                let _ = writeln!(o, "#[from_ref(X)]\n#[try_from_ref(Xf, Er)]");
+                let fields: Vec<String> = self.params.iter().map(|p| match p { P::Lt(l) => format!("#[from(~.as_str())] s{}: &{} str", &l[1..], l), _ => String::new() }).collect();
+                let _ = writeln!(o, "struct S{} {{ x: i32, {} }}", self.decl(), fields.join(", "));
+            }
+            _ => {
+                let _ = writeln!(o, "#[ref_into({})]\n#[ref_try_into({}, Er)]", self.cp_path(false), self.cp_path(true));
+                if !self.params.iter().any(|p| matches!(p, P::Ty { bound: true, .. })) && !self.own_where {
+                    o.push_str("#[where_clause(T: Clone)]\n");
+                }
+                let w = if self.own_where { " where T: Clone" } else { "" };
+                let mut fields = vec!["x: i32".to_string(), "#[into(~.as_str())] s: String".to_string()];
+                for p in &self.params {
+                    match p {
+                        P::Lt(l) => fields.push(format!("r{}: &{} i32", &l[1..], l)),
+                        P::Ty { .. } => fields.push("#[into(~.clone())] t: T".to_string()),
+                        P::Const { .. } => fields.push("arr: [u8; N]".to_string()),
+                    }
+                }
+                let _ = writeln!(o, "struct S{}{} {{ {} }}", self.decl(), w, fields.join(", "));
             }
         }
         o
@@ -209,9 +246,19 @@ impl GCase {
                     let _ = writeln!(o, "{d} pub struct {}<T> {{ pub x: i32, pub t: T }}", n);
                 }
             }
-            _ => {
+            2 => {
                 for n in ["X", "Xf"] {
                     let _ = writeln!(o, "{d} pub struct {}<'x> {{ pub x: i32, pub s: &'x str }}", n);
+                }
+            }
+            4 => {
+                for n in ["X", "Xf"] {
+                    let _ = writeln!(o, "{d} pub struct {} {{ pub x: i32, {} }}", n, self.params.iter().map(|p| match p { P::Lt(l) => format!("pub s{}: String", &l[1..]), _ => String::new() }).collect::<Vec<_>>().join(", "));
+                }
+            }
+            _ => {
+                for n in ["X", "Xf"] {
+                    let _ = writeln!(o, "{d} pub struct {}<'x, {}> {{ {}, pub s: &'x str }}", n, self.decl_plain().trim_start_matches('<').trim_end_matches('>'), self.fields(true));
                 }
             }
         }
@@ -277,6 +324,23 @@ impl GCase {
                     }
                     let _ = writeln!(o, "  }}");
                 }
+            }
+            3 => {
+                let mut vals = vec!["x: 1".to_string()];
+                for p in &self.params {
+                    match p {
+                        P::Lt(l) => vals.push(format!("r{}: &l{}", &l[1..], &l[1..])),
+                        P::Ty { .. } => vals.push("t: 7i32".to_string()),
+                        P::Const { .. } => vals.push("arr: [3u8; 2]".to_string()),
+                    }
+                }
+                let body = vals.join(", ");
+                let _ = writeln!(o, "  {{ let s = S {{ {body}, s: owned_string.clone() }}; let y: X<'_, {a}> = (&s).into(); r.eq(\"ref_into\", &y, &X {{ {body}, s: \"local\" }}); let y2: Result<Xf<'_, {a}>, Er> = (&s).try_into(); r.eq(\"try_ref_into\", &y2, &Ok(Xf {{ {body}, s: \"local\" }})); }}", a = self.infer_args());
+            }
+            4 => {
+                let xs: Vec<String> = self.params.iter().map(|p| match p { P::Lt(l) => format!("s{}: format!(\"loc{}\")", &l[1..], &l[1..]), _ => String::new() }).collect();
+                let ss: Vec<String> = self.params.iter().map(|p| match p { P::Lt(l) => format!("s{}: \"loc{}\"", &l[1..], &l[1..]), _ => String::new() }).collect();
+                let _ = writeln!(o, "  {{ let x = X {{ x: 1, {} }}; let s = S::from(&x); r.eq(\"from_ref\", &s, &S {{ x: 1, {} }}); let xf = Xf {{ x: 1, {} }}; let s2 = S::try_from(&xf); r.eq(\"try_from_ref\", &s2, &Ok::<_, Er>(S {{ x: 1, {} }})); }}", xs.join(", "), ss.join(", "), xs.join(", "), ss.join(", "));
             }
             _ => {
                 let _ = writeln!(o, "  {{ let s = S {{ x: 1, s: owned_string.clone() }}; let y: X = (&s).into(); r.eq(\"ref_into\", &y, &X {{ x: 1, s: \"local\" }}); let y2: Result<Xf, Er> = (&s).try_into(); r.eq(\"try_ref_into\", &y2, &Ok(Xf {{ x: 1, s: \"local\" }})); }}");
